@@ -546,7 +546,7 @@ def run(tier, seed, replay=None):
             out.case(case, nontrivial=True)
             n_spell += 1
 
-        cap_all = 30 if quick else 0
+        cap_all = 30 if quick else 110
         for fi, (name, pth, fkind) in enumerate(files):
             fam = fams[name]
             wfam = [x for x in fam if spell.pathword(x)]
